@@ -117,3 +117,50 @@ def lookup_sites(prog, rep, floor=2):
                     rep.ob("L3-index", "%s indexes %s" % (ob.id, prov.describe(base)), same, "indexed table differs from the searched table %s" % prov.describe(tab), "%s:%d" % (st["span"]["file"], st["span"]["line"]))
     rep.floor("table lookup sites (binary_search_by)", len(sites), floor)
     return sites
+
+
+def exact_lookup(outs, arg_name, arg_ty, rows, default, decode):
+    """Exactness of a table-lookup function that may have range shortcuts around the search. `outs` are the
+    paths of the function on a symbolic argument, with TotalWorld's binary-search decisions ('bsearch' ->
+    Ok/Err) in the log and interval facts for the argument. rows = folded table [(lo, hi, value)].
+    decode(outcome) -> ('row',) when the returned value is the found row's own value, ('const', v) for a
+    constant, ('other', text). For every code point of every path the result must be the table's value (or
+    the default). Returns an error text or None."""
+    from .. import interp as ip
+
+    MAXCP = 0x10FFFF
+    val = {}
+    for lo, hi, v in rows:
+        for cp in range(lo, min(hi, MAXCP) + 1):
+            val[cp] = v
+    covered = bytearray(MAXCP + 1)
+    for o in outs:
+        if o.kind != "return":
+            return "a path ends with %s (%s)" % (o.kind, o.info)
+        br = [v for k, v in o.state.log if isinstance(k, tuple) and k[0] == "bsearch"]
+        other = [k for k, v in o.state.log if isinstance(k, tuple) and k[0] in ("ord", "bool", "unproved-cmp")]
+        if other:
+            return "the result depends on %r" % (other[0],)
+        if len(br) > 1:
+            return "more than one search on a path"
+        d = decode(o)
+        for lo, hi in ip.rng_get(o.state, ip.Sym(arg_name, arg_ty)):
+            for cp in range(max(lo, 0), min(hi, MAXCP) + 1):
+                member = cp in val
+                if br and member != (br[0] == "Ok"):
+                    continue
+                covered[cp] = 1
+                want = val.get(cp, default)
+                if d[0] == "row":
+                    if not (br and br[0] == "Ok"):
+                        return "U+%04X: a row value is returned without a successful search" % cp
+                    continue
+                if d[0] == "const":
+                    if d[1] != want:
+                        return "U+%04X: returns %s, the table says %s%s" % (cp, d[1], want, "" if br else " (decided by a range test, no search)")
+                    continue
+                return "U+%04X: returns %s" % (cp, d[1])
+    miss = covered.find(0)
+    if miss != -1 and not (arg_ty == "char" and 0xD800 <= miss <= 0xDFFF):
+        return "no path covers U+%04X" % miss
+    return None
